@@ -5,7 +5,7 @@ package config
 
 // "name", "name(n)", "name(n, sleep)": count defaults to 1, sleep to 0; anything else is an error.
 //@ func ParseShootName
-//@ props C13 C15
+//@ props C13 C15 C16
 //@ modifies nothing
 //@ ensures [plain-name-runs-once] imp(result3 == nil && len(result_of(str.ParseStringFunc, 1)) == 0, result1 == 1 && result2 == 0)
 //@ ensures [name-as-written] imp(result3 == nil, result0 == result_of(str.ParseStringFunc, 0))
@@ -13,7 +13,7 @@ package config
 
 // Scenario multiplicities: weight divided by the common divisor of all weights. No fault and no negative count for any weights.
 //@ func SpreadNames
-//@ props C13 C15
+//@ props C13 C15 C16
 //@ nilsafe
 //@ loop 0 invariant len(weights) == len(input) && forall(k, 0, rangeidx, weights[k] > 0 && input[k].Weight == weights[k])
 //@ loop 1 invariant total >= 0 && div > 0 && forall(k, 0, len(input), input[k].Weight >= div) && names != nil
